@@ -1,10 +1,15 @@
 """C09 Strings compare and hash by content however and whenever they were created."""
+import glob
+import os
+
 from hypothesis import strategies as st
 
 from .. import worker as W
 from ..lang import gen, printer
 from ..oracle import compare_model
 from ..runner import Failure, Outcome
+from ..build import repo_path
+from ..runner import enc
 from .c05 import schedule_strategy, to_schedule
 from .common import run_model, short
 
@@ -26,7 +31,10 @@ RULE = ("Hypothesis draws a base content (ascii, numeric looking, keyword lookin
         "explicit ordinals, byte threshold; with and without forcing full collections) on a drawn build (enum / nan "
         "boxed x debug / release); after the run and after a forced full collection the intern table is inspected: "
         "every key's bytes equal its string's bytes, every entry is a live String, and after a full collection there are "
-        "exactly as many entries as live String objects (no two live strings with the same content). Non-trivial: >= 2 "
+        "exactly as many entries as live String objects (no two live strings with the same content); with the collector "
+        "off the number of String objects at the end must equal the number of intern entries (no string was created "
+        "outside the table) -- this last oracle also runs over every fixture script of the repository (each native "
+        "has one), where no model is needed. Non-trivial: >= 2 "
         "different routes were used, >= 1 observation compared equal contents from different expressions, and the "
         "scheduled run freed objects before its last allocation; distinct by program text + schedule.")
 ASSUMPTIONS = ["ordering of strings is by code point (byte order of UTF-8), as the tree's LyStr cmp does",
@@ -56,8 +64,18 @@ def strategy(hazards):
     return st.tuples(gen.strings_scenario(), schedule_strategy(), st.booleans(), st.integers(0, 3)).map(mix)
 
 
-def _intern_failure(r, what, src):
+def _intern_failure(r, what, src, never=False):
     heaps = {h.get("at"): h for h in r.get("heap", [])}
+    if never:
+        # the collector never ran: every String object ever allocated is still in a heap, and each of them must have
+        # come through the intern table (one entry per object). A creation path that bypasses the table shows here
+        # whatever the program does with the string afterwards
+        h = heaps.get("after_run")
+        if h and h.get("intern_len") != h.get("strings"):
+            return Failure("%s/string-outside-intern-table" % PROPERTY,
+                           "%s: with the collector off the program ended with %s String objects but %s intern entries: "
+                           "some string was created without going through the table\n--- source\n%s" %
+                           (what, h.get("strings"), h.get("intern_len"), src), {"source": src, "heap": h})
     for stage in ("after_run", "after_full_collect", "after_second_full_collect"):
         h = heaps.get(stage)
         if not h:
@@ -76,6 +94,8 @@ def _intern_failure(r, what, src):
 
 
 def run_case(case, ctx):
+    if case and case[0] == "fixture":
+        return _fixture_case(case[1], ctx, case[2])
     scen, sched, force_full, vsel = case
     try:
         src, lines = printer.to_source(scen["main"])
@@ -88,8 +108,10 @@ def run_case(case, ctx):
     everything = src + "".join("\n--- %s\n%s" % (p, t) for p, t in sorted(texts.items()))
     variant = VARIANTS[vsel % 4]
     w = ctx.worker(variant)
-    base = w.run(src, files=texts, schedule=W.NEVER)
+    base = w.run(src, files=texts, schedule=W.NEVER, mode=W.MODE_RUN_COLLECT)
     fail = compare_model(PROPERTY, res, base, everything, "%s, collector off" % variant)
+    if fail is None:
+        fail = _intern_failure(base, "%s, collector off" % variant, everything, never=True)
     runs = 1
     labels = ["build:" + variant, "sched:" + sched[0]] + ["route:" + r for r in scen.get("routes", [])]
     if scen["files"]:
@@ -134,3 +156,39 @@ def reexpress(case, outcome):
     if not ords:
         return None
     return (scen, ("at_indices", list(ords)), force_full, vsel)
+
+
+def _fixture_case(path, ctx, variant):
+    try:
+        text = open(os.path.join(repo_path(), path), encoding="utf-8").read()
+    except (OSError, UnicodeDecodeError):
+        return Outcome(discarded="unreadable-fixture")
+    r = ctx.worker(variant).run(text, schedule=W.NEVER, mode=W.MODE_RUN_COLLECT, watchdog_s=120)
+    if r.get("outcome") in ("timeout", "compile_error"):
+        return Outcome(discarded="fixture-" + r.get("outcome"))
+    fail = _intern_failure(r, "%s on %s, collector off" % (path, variant), short(text, 1500), never=True)
+    if fail is not None:
+        fail.info["case"] = enc(("fixture", path, variant))
+    heaps = {h.get("at"): h for h in r.get("heap", [])}
+    n = (heaps.get("after_run") or {}).get("strings", 0)
+    return Outcome(key="fixture:" + path + variant, nontrivial=n > 200, labels=["fixture"], failure=fail, runs=1)
+
+
+def extra(tier, ctx):
+    """Every fixture script (each native of the library has one) with the collector off: all String objects that
+    exist at the end must be interned, whatever native or vm path created them."""
+    out = []
+    root = repo_path()
+    files = []
+    for sub in ("laythe_vm/fixture/language", "laythe_vm/fixture/std_lib"):
+        files.extend(sorted(glob.glob(os.path.join(root, sub, "**", "*.lay"), recursive=True)))
+    for k, path in enumerate(files):
+        if os.path.getsize(path) > 20000:
+            continue
+        text = open(path, encoding="utf-8", errors="replace").read()
+        if "import self" in text or "stdin" in text:
+            continue
+        variants = VARIANTS if tier == "thorough" else (VARIANTS[k % 4],)
+        for v in variants:
+            out.append(_fixture_case(os.path.relpath(path, root), ctx, v))
+    return out
